@@ -32,6 +32,12 @@ impl std::io::Write for BufSink {
 }
 
 pub fn roundtrip(spec: &FileSpec) -> Result<usize, (String, String)> {
+    roundtrip_io(spec, true)
+}
+
+/// `short_io`: also write the file through sinks accepting one byte at a time / cycling short
+/// accepts (costly: sampled by the caller)
+pub fn roundtrip_io(spec: &FileSpec, short_io: bool) -> Result<usize, (String, String)> {
     let entries = spec.entries.build();
     let bytes = write_file(&spec.cfg, &entries).map_err(|e| ("write".to_string(), e))?;
     let reader = open(&bytes).map_err(|e| ("open".to_string(), e))?;
@@ -74,7 +80,7 @@ pub fn roundtrip(spec: &FileSpec) -> Result<usize, (String, String)> {
             return Err(("write".into(), "WriterBuilder::build(&mut buffering sink) + finish() leaves different bytes in the sink than memory() + into_inner() returns (unflushed or different output)".into()));
         }
         // a sink accepting short, interrupted writes receives the same file
-        if entries.len() >= 3 || spec.cfg.index_levels >= 2 {
+        if short_io {
             let short = crate::common::write_file_short(&spec.cfg, &entries).map_err(|e| ("write".to_string(), format!("through a short-writing sink: {e}")))?;
             if short != bytes {
                 return Err(("write".into(), "a sink accepting short and interrupted writes received different bytes than a Vec sink".into()));
@@ -107,11 +113,14 @@ pub fn roundtrip(spec: &FileSpec) -> Result<usize, (String, String)> {
     Ok(count_blocks(&bytes))
 }
 
-fn check_one(spec: &FileSpec, acc: &mut Acc) {
+fn check_one(spec: &FileSpec, short_io: bool, acc: &mut Acc) {
     acc.evaluations += 1;
     acc.states += 1;
     acc.transitions += 2;
-    match roundtrip(spec) {
+    if short_io {
+        acc.count("files_also_written_through_short_writing_sinks", 1);
+    }
+    match roundtrip_io(spec, short_io) {
         Ok(blocks) => {
             if blocks > spec.cfg.index_levels as usize + 2 {
                 acc.nontrivial += 1;
@@ -148,7 +157,10 @@ pub fn run(tier: Tier) -> i32 {
     let mut rep = Report::new("C01", tier, "model_checking");
     let pop = Population::new(tier);
     let deadline = Deadline::after(Duration::from_secs(tier.pick(50, 3000)));
-    let acc = par_for(pop.len(), 32, &deadline, |i, acc| check_one(&pop.get(i), acc));
+    // the short-writing sinks (one byte per call) are expensive: every fixed-family file and one in
+    // 64 of the others
+    let fixed_from = pop.len() - pop.fixed.len();
+    let acc = par_for(pop.len(), 32, &deadline, |i, acc| check_one(&pop.get(i), i >= fixed_from || i % 64 == 0, acc));
     rep.acc = acc;
     rep.set("rule", json!("E2: every file of the population (all entry-shape sequences up to n x the full 252-layout grid (9 block sizes x 4 intervals x 7 index depths); x all codec/level pairs at 3 layouts; all layouts x every codec at small n; deep and dense families x every codec) is written by the real Writer, opened, and scanned forward (move_on_next) and backward (move_on_prev) from fresh cursors against the inserted vector, with Reader::len and compression_type checked; states = files, transitions = scans; distinct_nontrivial = files in which some level has >= 2 blocks (more blocks than index_levels + 2)"));
     rep.set("bound", pop.describe());
